@@ -784,8 +784,8 @@ struct Datetime(date: Date, hours: int, minutes: int, seconds: float)
 let __std_unix_epoch = Date(1970,1,1);
 
 fn datetime(unix: float)->Datetime{
-    let seconds = unix % 60.0;
     let u = (unix/60.0).floor();
+    let seconds = unix - (u*60).to_float();
     let minutes = u % 60;
     let u = (u/60).floor();
     let hours = u %24;
